@@ -139,6 +139,7 @@ type Stats struct {
 	AltCalls     int
 	AltDecided   int
 	CutUnknown   int
+	Decisions    int
 	Asserts      map[string]*AssertSite
 	Fns          map[string]int
 	Intrinsics   map[string]int
@@ -166,6 +167,7 @@ func (s *Stats) Merge(o *Stats) {
 	s.AltCalls += o.AltCalls
 	s.AltDecided += o.AltDecided
 	s.CutUnknown += o.CutUnknown
+	s.Decisions += o.Decisions
 	for k, v := range o.Asserts {
 		a := s.Asserts[k]
 		if a == nil {
@@ -882,6 +884,11 @@ func (e *Engine) RunPath(fn *ssa.Function, prefix []Decision) (res PathResult, a
 	res.Decisions = e.trace
 	res.Violations = e.violations
 	e.Stats.Paths++
+	for _, d := range e.trace {
+		if d.Kind == 'b' || d.Kind == 'c' {
+			e.Stats.Decisions++
+		}
+	}
 	e.Stats.ByStatus[res.Status]++
 	if res.Status == "unsupported" {
 		k := res.Msg
